@@ -107,9 +107,18 @@ class SolveP(Problem):
 
     def leaves(self):
         n = self.n
-        return {"P": torch.randn(n, n, generator=self.tg, dtype=DT).requires_grad_(),
-                "B": torch.randn(n, 2, generator=self.tg, dtype=DT).requires_grad_(),
-                "E": (-torch.rand(2, generator=self.tg, dtype=DT)).requires_grad_()}
+        lv = {"P": torch.randn(n, n, generator=self.tg, dtype=DT).requires_grad_(),
+              "B": torch.randn(n, 2, generator=self.tg, dtype=DT).requires_grad_(),
+              "E": (-torch.rand(2, generator=self.tg, dtype=DT)).requires_grad_()}
+        if self.seed % 3 != 0:
+            lv["Q"] = torch.randn(n, n, generator=self.tg, dtype=DT).requires_grad_()
+        return lv
+
+    def mop(self, lv):
+        import xitorch
+        if "Q" not in lv:
+            return None
+        return xitorch.LinearOperator.m(_spd_from(lv["Q"], 2.0), is_hermitian=True)
 
     def ops(self, lv):
         import xitorch
@@ -128,14 +137,16 @@ class SolveP(Problem):
         if low == "broyden1":
             kw.update(f_tol=1e-12, x_tol=1e-12)
         self.last_A = self.ops(lv)
-        return [solve(self.last_A, lv["B"], lv["E"], None, method=method, bck_options=bck or {}, **kw)]
+        self.last_M = self.mop(lv)
+        return [solve(self.last_A, lv["B"], lv["E"], self.last_M, method=method, bck_options=bck or {}, **kw)]
 
     def closed(self):
         def my_solve(A, B, E=None, M=None, **opts):
             Ad = A.fullmatrix().detach()
+            Md = M.fullmatrix().detach() if M is not None else torch.eye(Ad.shape[-1], dtype=Ad.dtype)
             cols = []
             for c in range(B.shape[-1]):
-                S = Ad - (E[..., c].detach() * torch.eye(Ad.shape[-1], dtype=Ad.dtype) if E is not None else 0)
+                S = Ad - (E[..., c].detach() * Md if E is not None else 0)
                 cols.append(torch.linalg.solve(S, B[..., c].detach()))
             return torch.stack(cols, dim=-1)
         return my_solve
@@ -152,7 +163,7 @@ class SolveP(Problem):
         obs.check(call["nargs"] == 4 and isinstance(a[0], xitorch.LinearOperator) and a[0] is self.last_A, "args:" + mech,
                   "custom solve must be called with (A, B, E, M): got %d positional, first %s" % (call["nargs"], type(a[0]).__name__))
         if call["nargs"] == 4:
-            obs.check(torch.equal(a[1], lv["B"]) and torch.equal(a[2], lv["E"]) and a[3] is None, "args:" + mech, "B, E, M are not the caller's")
+            obs.check(torch.equal(a[1], lv["B"]) and torch.equal(a[2], lv["E"]) and a[3] is self.last_M, "args:" + mech, "B, E, M are not the caller's")
 
 
 class SymeigP(Problem):
@@ -473,7 +484,7 @@ class McP(Problem):
 
 
 PROBLEMS = {c.name: c for c in (SolveP, SymeigP, SvdP, RootP, EquilP, MinP, IvpP, QuadP, McP)}
-OPTION_SETS = [{}, {"my_flag": 3}, {"verbose": False, "my_list": (1, 2)}]
+OPTION_SETS = [{}, {"my_flag": 3}, {"verbose": False, "my_list": (1, 2)}, {"my_none": None, "my_zero": 0}, {"my_empty": "", "my_none": None}]
 
 
 # ------------------------------------------------------------------------------------------------ cases
@@ -486,8 +497,15 @@ def cases(seed, tier):
             for r in range(nrep):
                 rng = random.Random(sub_seed(seed, "c18", name, variant, r))
                 out.append({"group": "custom", "functional": name, "variant": variant, "n": rng.choice([3, 4, 6, 7]),
-                            "optset": rng.randrange(len(OPTION_SETS)), "seed": sub_seed(seed, "c18s", k)})
+                            "optset": rng.randrange(len(OPTION_SETS)), "seed": sub_seed(seed, "c18s", k),
+                            "all_grad": r % 3 == 0, "only": (1 + r) if r % 3 == 1 else 0})
                 k += 1
+        # directed: exactly one leaf requires grad (each leaf in turn), seeds chosen so that every structural variant (with / without M) occurs
+        for variant in ("closed", "wrap"):
+            for only in range(1, 5):
+                for j in range(2 if tier == "quick" else 6):
+                    out.append({"group": "custom", "functional": name, "variant": variant, "n": 4, "optset": (only + j) % len(OPTION_SETS),
+                                "seed": sub_seed(seed, "c18o", name, only, j), "all_grad": False, "only": only})
         for r in range(3 if tier == "quick" else 12):
             out.append({"group": "names", "functional": name, "n": 4 if r % 2 == 0 else 6, "seed": sub_seed(seed, "c18s", k)})
             k += 1
@@ -523,7 +541,17 @@ def run_custom(desc, obs):
     impl = P.closed() if variant == "closed" else P.wrap()
     spy = Spy(impl)
     lv_c = P.leaves()
-    lv_r = {k: v.detach().clone().requires_grad_() for k, v in lv_c.items()}
+    mrng = random.Random(desc["seed"] + 7)
+    mask = {k: (mrng.random() < 0.65) for k in lv_c}
+    if desc.get("all_grad", False) or not any(mask.values()):
+        mask = {k: True for k in lv_c}
+    if desc.get("only"):       # exactly one leaf requires grad
+        keys = sorted(lv_c)
+        one = keys[desc["only"] % len(keys)]
+        mask = {k: (k == one) for k in lv_c}
+    lv_c = {k: v.detach().clone().requires_grad_(mask[k]) for k, v in lv_c.items()}
+    lv_r = {k: v.detach().clone().requires_grad_(mask[k]) for k, v in lv_c.items()}
+    obs.note(requires_grad=[k for k in mask if mask[k]])
     bck = P.bck_for_closed if P.bck_for_closed is not None else None
     # ---- built-in reference
     try:
